@@ -80,6 +80,16 @@ def sig_term(seed, msg):
     return Term('ed25519sig', seed, msg)
 
 
+class SignedRope(Rope):
+    """nacl.signing.SignedMessage: the bytes signature | message, with the two parts also available as attributes"""
+    def abs_attr(self, it, a, node):
+        if a == 'signature':
+            return self.cut(it, 0, 64).simplify()
+        if a == 'message':
+            return self.cut(it, 64, self.n).simplify()
+        return super().abs_attr(it, a, node)
+
+
 class SigningKeyModel:
     def __init__(self, seed):
         self.seed = seed
@@ -91,7 +101,7 @@ class SigningKeyModel:
                 mr = Rope.of(it_, m)
                 if mr is None:
                     raise Fail('message of unknown length')
-                return Rope([(sig_term(self.seed, m), 64)] + mr.parts)
+                return SignedRope([(sig_term(self.seed, m), 64)] + mr.parts)
             return Native(sign, 'SigningKey.sign')
         if a == 'encode':
             return Native(lambda it_, args, kw, n: self.seed, 'SigningKey.encode')
@@ -260,16 +270,34 @@ def check(run):
     w = prog.where(prog.method('AdnlChannel', '__init__'))
     we = prog.where(prog.method('AdnlChannel', 'encrypt'))
 
-    # ---- ids only compared (so three orderings are the complete domain)
-    init = prog.method('AdnlChannel', '__init__')
-    ids = [a.arg for a in init.node.args.args[3:5]]
-    parents = {}
-    for n in ast.walk(init.node):
-        for c in ast.iter_child_nodes(n):
-            parents[c] = n
-    other = [ast.unparse(parents[n])[:50] for n in ast.walk(init.node) if isinstance(n, ast.Name) and n.id in ids and isinstance(n.ctx, ast.Load)
-             and not isinstance(parents.get(n), ast.Compare)]
-    run.check(not other, 'D1', 'AdnlChannel.__init__[ids only compared]', f'local/peer id used outside comparisons: {other}' if other else f'{ids} occur in comparisons only', w)
+    # ---- ids only compared (so the orderings are the complete domain): the constructor is interpreted with *opaque* ids - every way the
+    # two ids can compare is a path - and on each path nothing the channel keeps may be computed from an id (helpers are followed, so
+    # moving the split into a function changes nothing)
+    from ..interp import run_paths
+    IDL = Sym('LOCAL_ID', ty='bytes', n=32, key=('adnlid', 'local'), not_none=True)
+    IDP = Sym('PEER_ID', ty='bytes', n=32, key=('adnlid', 'peer'), not_none=True)
+    seen_paths = []
+
+    def one(orc):
+        it = mk(prog)
+        it.oracle = orc
+        A, B = peer(prog, it, 'A'), peer(prog, it, 'B')
+        try:
+            ch = it.construct(AC, [A, server_view(prog, it, B), IDL, IDP], {})
+        except RaiseEx as e:
+            return ('raise', str(e))
+        leaked = sorted(a for a, v in ch.attrs.items() if v is not IDL and v is not IDP and any(nm in vrepr(v) for nm in ('LOCAL_ID', 'PEER_ID')))
+        return ('ok', leaked)
+    try:
+        for (kind, detail), desc in run_paths(one, 64):
+            seen_paths.append(desc)
+            ok = kind == 'ok' and not detail
+            run.check(ok, 'D1', 'AdnlChannel.__init__[ids only compared]' if not ok else f'ids only compared[{desc[:60] or "single path"}]',
+                      (f'attributes {detail} are computed from the ids themselves, not only from how they compare' if kind == 'ok' else f'raises {detail}') if not ok
+                      else 'nothing the channel keeps is computed from an id on this path', w)
+            run.evaluations += 1
+    except Fail as e:
+        raise AnalysisError(f'AdnlChannel.__init__ with opaque ids: {e} (an id is used in an operation other than a comparison that the model cannot follow)')
 
     orderings = {'local>peer': (b'\x09' * 32, b'\x01' * 32), 'local<peer': (b'\x01' * 32, b'\x09' * 32), 'equal': (b'\x05' * 32, b'\x05' * 32),
                  'differ in last byte': (b'\x05' * 31 + b'\x06', b'\x05' * 31 + b'\x05')}
